@@ -14,6 +14,16 @@ ASSUMPTIONS = [
 ]
 TRIVIAL_TAGS = ["interpreter-rejects", "compile-error", "run-error"]
 
+def pregen():
+    """regenerate coq/theories/Gen/InstrArms.v from the current Rust source (translators/instr_arms.py): the per-instruction arm
+    obligations of Props/C06.v are stated over that table"""
+    import os, sys
+    from vlib import core as _core
+    sys.path.insert(0, os.path.join(_core.ROOT, "translators"))
+    import armlib
+    return armlib.pregen(PROP, [("instr_arms", "theories/Proofs/InstrArmsP.vo")])
+
+
 INTK = ["u8", "u16", "u32", "u64", "u128", "i8", "i16", "i32", "i64", "i128"]
 
 
